@@ -15,7 +15,7 @@ use crate::xexpr::X;
 use crate::xv::{canon, XV};
 use std::sync::Arc;
 
-pub fn generate(verif_seed: u64, idx: u64, property: &str) -> Scenario {
+pub fn generate(verif_seed: u64, idx: u64, property: &str, thorough: bool) -> Scenario {
     // 8 consecutive indices share a base scenario and move the abandonment
     // point of the victim task through suspension points 0..7
     let family = idx >> 3;
@@ -122,6 +122,32 @@ pub fn generate(verif_seed: u64, idx: u64, property: &str) -> Scenario {
             }
         }
     }
+    // abandonment storm: many evaluations of the same ruleset object dropped midway, one after
+    // another or at once, before a final one runs — state that leaks a little per abandoned
+    // evaluation (a slot, a counter, a lock) only shows after enough of them
+    if rng.chance(1, 6) {
+        let max = if thorough { 200 } else { 48 };
+        let n = 4 + rng.below(max - 4) as usize;
+        let chained = rng.chance(2, 3);
+        let first = scn.tasks.len();
+        let input = rng.usize(2);
+        for i in 0..n {
+            let t = scn.tasks.len();
+            let start = if chained && i > 0 { Start::AfterEnd(t - 1) } else if chained { Start::Now } else { Start::AtStep(rng.below(20) as u32) };
+            scn.tasks.push(TaskSpec { tag: 100 + i as u32, entry: Entry::RuleSet, input, start });
+            // make sure the first call suspends, then abandon at an early suspension point
+            scn.behaviour.push(Beh { task: t, call: 0, susp: vec![Susp::SelfWake, Susp::Deferred(1_000_000), Susp::SelfWake], panic: false });
+            if rng.chance(1, 8) {
+                scn.faults.push(Fault::Deadline { task: t, after: rng.below(3) * 1_000_000 });
+            } else {
+                scn.faults.push(Fault::CancelAfterPending { task: t, k: 1 + rng.below(3) as u32 });
+            }
+        }
+        let last = scn.tasks.len() - 1;
+        for j in 0..2 {
+            scn.tasks.push(TaskSpec { tag: 90 + j, entry: Entry::RuleSet, input, start: Start::AfterEnd(if chained { last } else { first + rng.usize(n) }) });
+        }
+    }
     let total = scn.tasks.len();
     let (p_spur, p_adv) = match rng.below(5) {
         0 => (0, 50),      // wake-driven
@@ -130,9 +156,9 @@ pub fn generate(verif_seed: u64, idx: u64, property: &str) -> Scenario {
         3 => (0, 300),     // slow executor: clock runs ahead of runnable tasks
         _ => (50, 50),
     };
-    scn.picks = random_picks(&mut rng, 200, total, p_spur, p_adv);
+    scn.picks = random_picks(&mut rng, 200 + 4 * total, total, p_spur, p_adv);
     scn.exec.fresh_waker = rng.chance(1, 4);
-    scn.exec.max_steps = 3000;
+    scn.exec.max_steps = 3000 + 40 * total as u32;
     scn
 }
 
@@ -291,6 +317,13 @@ pub fn judge(scn: &Scenario, out: &RunOut, c: &mut Counters) -> Verdict {
     }
     if any_abandoned {
         sig = combine(sig, 0xAB);
+    }
+    let n_abandoned = out.ends.iter().filter(|e| matches!(e, TaskEnd::Cancelled { .. } | TaskEnd::DeadlineHit | TaskEnd::ProbePanicked)).count();
+    if n_abandoned >= 16 {
+        c.bump("hit.sixteen_or_more_evaluations_abandoned_on_one_ruleset");
+    }
+    if n_abandoned >= 64 {
+        c.bump("hit.sixtyfour_or_more_evaluations_abandoned_on_one_ruleset");
     }
     let concurrent = out.stats.interleave_switch > 0;
     Verdict::pass(if concurrent || any_abandoned { Some(sig) } else { None })
